@@ -424,7 +424,10 @@ class _Tcp(object):
         if cls.conn is None:
             from cpppo.server.enip import client
             srv = cls.server()
-            cls.conn = client.connector(host=srv.address[0], port=srv.address[1], timeout=CLIENT_TIMEOUT)
+            try:
+                cls.conn = client.connector(host=srv.address[0], port=srv.address[1], timeout=CLIENT_TIMEOUT)
+            except Exception as exc:        # connecting / registering is not this property's subject
+                raise common.HarnessError('client could not connect to the TCP simulator: %r' % (exc,))
         return cls.conn
 
     @classmethod
